@@ -183,8 +183,14 @@ def run_batch(plan, tier, seed, n_runs=None, workers=None, wall_cap_s=None):
     else:
         with ProcessPoolExecutor(max_workers=workers, mp_context=ctx) as ex:
             futs = [ex.submit(_chunk_worker, c) for c in chunks]
+            last = time.time()
             for f in as_completed(futs, timeout=wall_cap_s):
                 results.append(f.result())
+                if time.time() - last > 60:
+                    last = time.time()
+                    nv = sum(len(r["viols"]) for r in results)
+                    print(f"progress: {len(results)}/{len(chunks)} chunks, {nv} violating runs so far, "
+                          f"{time.time() - t0:.0f}s", flush=True)
     results.sort(key=lambda r: r["start"])
     agg = {"stats": {}, "digests": set(), "sigs": set(), "trans": set(), "scheds": set(), "viols": [],
            "samples": [], "nontrivial": 0, "known": {}}
